@@ -12,7 +12,7 @@ const SPEC: Spec = Spec {
         "left shifts and pow use small amounts/exponents only (memory-exhausting operations are out of scope)",
         "the form matrix is what the harness macros can name; the number instantiated is reported, not assumed",
     ],
-    bounds_quick: "arithmetic scalar forms: {BigUint x 6 unsigned, BigInt x 12 types} x {+,-,*,/,%} x 9 forms; scalar %= big for 12 types (value and reference); shifts 2 big types x 12 types x {<<,>>} x 6 forms; pow 2 big types x 6 types + BigUint exponent x 4 forms; big-by-big 8 operators x 6 forms on a 24^2 sub-pool; checked_*; Sum/Product over Big, &Big and each scalar type",
+    bounds_quick: "arithmetic scalar forms: {BigUint x 6 unsigned, BigInt x 12 types} x {+,-,*,/,%} x 9 forms; scalar %= big for 12 types (value and reference); shifts 2 big types x 12 types x {<<,>>} x 6 forms + 5 forms on an owned operand with spare capacity; pow 2 big types x 6 types + BigUint exponent x 4 forms; big-by-big 8 operators x 6 forms on a 24^2 sub-pool; checked_*; Sum/Product over Big, &Big and each scalar type",
     bounds_thorough: "same matrix with the full 30^2 big-by-big pool and an extended scalar set (every power of two +-1 that fits the type)",
     hang_secs: 120,
     probes: None,
@@ -30,6 +30,21 @@ fn show<B: std::fmt::LowerHex>(a: &Out<B>) -> String {
     match a {
         Out::Ret(x) => format!("{:x}", x),
         Out::Panic(m) => format!("panic({})", m),
+    }
+}
+
+/// The same value as an OWNED operand whose buffer has spare capacity (by-value and assign forms may then work in place).
+trait Slack {
+    fn slack(&self, want: usize) -> Self;
+}
+impl Slack for BigUint {
+    fn slack(&self, want: usize) -> Self {
+        nbmc::with_slack(self, want).0
+    }
+}
+impl Slack for BigInt {
+    fn slack(&self, want: usize) -> Self {
+        BigInt::from_biguint(self.sign(), nbmc::with_slack(self.magnitude(), want).0)
     }
 }
 
@@ -248,6 +263,10 @@ macro_rules! shift_forms {
                 cmp_form(ctx, forms, concat!($bn, " big>>=", $tn), &args, r, &canon);
                 let r = call(ctx, || { let mut x = big.clone(); x >>= &t; x });
                 cmp_form(ctx, forms, concat!($bn, " big>>=&", $tn), &args, r, &canon);
+                let r = call(ctx, || big.slack(2 * (big.bits() as usize / 64) + 3) >> t);
+                cmp_form(ctx, forms, concat!($bn, " big(slack)>>", $tn), &args, r, &canon);
+                let r = call(ctx, || { let mut x = big.slack(2 * (big.bits() as usize / 64) + 3); x >>= t; x });
+                cmp_form(ctx, forms, concat!($bn, " big(slack)>>=", $tn), &args, r, &canon);
             }
             if k <= 1000 {
                 ctx.case();
@@ -267,6 +286,16 @@ macro_rules! shift_forms {
                 cmp_form(ctx, forms, concat!($bn, " big<<=", $tn), &args, r, &canon);
                 let r = call(ctx, || { let mut x = big.clone(); x <<= &t; x });
                 cmp_form(ctx, forms, concat!($bn, " big<<=&", $tn), &args, r, &canon);
+                if k >= 0 {
+                    // owned operand with room for the whole result: in-place shifting must not read what it has overwritten
+                    let want = (big.bits() as usize + k as usize) / 64 + 3;
+                    let r = call(ctx, || big.slack(want) << t);
+                    cmp_form(ctx, forms, concat!($bn, " big(slack)<<", $tn), &args, r, &canon);
+                    let r = call(ctx, || big.slack(want) << &t);
+                    cmp_form(ctx, forms, concat!($bn, " big(slack)<<&", $tn), &args, r, &canon);
+                    let r = call(ctx, || { let mut x = big.slack(want); x <<= t; x });
+                    cmp_form(ctx, forms, concat!($bn, " big(slack)<<=", $tn), &args, r, &canon);
+                }
             }
         }
     }};
